@@ -602,6 +602,15 @@ def job_stream(pid, ctx, n_random=None):
                     latest = max(a[u][0] for a in ats)
                     if it.get(u) is None: s.oracle_failures.append((i, c, ta, f"[C07] ticket {u} never resolves; its control completes (and every admissible run resolves the ticket) at {latest} ms at the latest"))
                     elif it[u][0] > latest: s.oracle_failures.append((i, c, ta, f"[C07] ticket {u} resolves at {it[u][0]} ms, later than the completion of its control ({latest} ms at the latest)"))
+        # C09 "the job's observable state (pending, running, finished with status, and the previous run's result)": what a run marker saw
+        # (JobTaskContext.current / previous) must be what some admissible run of the documented machine shows at that marker (c09_whole_run)
+        def marks(t): return {e.split(":")[2]: ":".join(e.split(":")[3:5]) for e in t.split("|") if e.split(":")[1:2] == ["run"] and len(e.split(":")) >= 5}
+        if job_norm(ta) not in alts:
+            im_ = marks(ta); am_ = [marks(a) for a in alts]
+            for k_, v_ in sorted(im_.items()):
+                want = {a[k_] for a in am_ if k_ in a}
+                if want and v_ not in want:
+                    s.oracle_failures.append((i, c, ta, f"[C09] run marker {k_} saw the job as current:previous = {v_}; the documented state machine shows {' or '.join(sorted(want))} there (P pending, R running, F<n> finished with status n, - none)"))
         def kills(t): return {e.split(":")[2]: int(e.split(":")[0]) for e in t.split("|") if ":kill:" in e}
         ik = kills(ta)
         if ik and job_norm(ta) not in alts:
